@@ -357,6 +357,26 @@ pub fn exec_step(s: &Suite, cfg: &Cfg, pool: &Pool, act: &Value, dst: &str) -> O
                 ),
             }
         }
+        "add_many" | "multiply_many" => {
+            // k-ary forms: operands are the slots listed in act.ops (repetitions allowed)
+            let mut ops: Vec<Ciphertext> = vec![];
+            for n in act["ops"].as_array().unwrap() {
+                ops.push(get_ct(pool, n.as_str().unwrap())?.clone());
+            }
+            if op == "add_many" {
+                forms_ct(|| ev.add_many_new(&ops), |d| ev.add_many(&ops, d), None)
+            } else {
+                forms_ct(
+                    || {
+                        let mut d = Ciphertext::new();
+                        ev.multiply_many(&ops, &s.rlk, &mut d);
+                        d
+                    },
+                    |d| ev.multiply_many(&ops, &s.rlk, d),
+                    None,
+                )
+            }
+        }
         "square" => {
             let a = get_ct(pool, a_name)?;
             forms_ct(
